@@ -44,6 +44,11 @@ def kdf (P : Prims) (x : Nat) (mk ak : Bytes) : Outcome (Bytes × Bytes) :=
     .ok (slice a 0 8 ++ slice b 8 20 ++ slice c 4 16,
          slice a 8 20 ++ slice b 0 8 ++ slice c 16 20 ++ slice d 0 8)
 
+/-- the key derivation as `ige.Encrypt` / `ige.Decrypt` reach it: behind `checkAuthKey`, which answers a key
+the derivation cannot work with by an error — the panic of `generateAESIGE` is not reachable from there -/
+def kdfG (P : Prims) (x : Nat) (mk ak : Bytes) : Outcome (Bytes × Bytes) :=
+  if ak.length < 96 + x + 32 then .err "shortKey" else kdf P x mk ak
+
 /-- the padding of `ige.Encrypt`: `(16 - len%16) & 15` zero bytes -/
 def padLen (n : Nat) : Nat := (16 - n % 16) &&& 15
 
@@ -55,9 +60,10 @@ def igeCheck (data : Bytes) : Option String :=
   else if data.length % 16 ≠ 0 then some "dataNotDivisible"
   else none
 
-/-- `ige.Encrypt(msg, key)` -/
+/-- `ige.Encrypt(msg, key)`; `checkAuthKey` refuses a key the derivation cannot work with, so the panic of
+`generateAESIGE` is not reachable from here -/
 def encrypt (P : Prims) (msg key : Bytes) : Outcome Bytes :=
-  match kdf P 0 (msgKey P msg) key with
+  match kdfG P 0 (msgKey P msg) key with
   | .panic s => .panic s
   | .err e => .err e
   | .ok kv =>
@@ -66,9 +72,9 @@ def encrypt (P : Prims) (msg key : Bytes) : Outcome Bytes :=
     | some e => .err e
     | none => .ok (P.igeE kv.1 kv.2 data)
 
-/-- `ige.Decrypt(msg, key, msgKey)` -/
+/-- `ige.Decrypt(msg, key, msgKey)` (with `checkAuthKey`, see `encrypt`) -/
 def decrypt (P : Prims) (ct key mk : Bytes) : Outcome Bytes :=
-  match kdf P 8 mk key with
+  match kdfG P 8 mk key with
   | .panic s => .panic s
   | .err e => .err e
   | .ok kv =>
@@ -94,12 +100,10 @@ structure Rd where
 
 /-- `PopRawBytes(n)` (current source: a negative size or one larger than the rest is an error).
 `nil` and the empty slice are both `[]` here; no caller distinguishes them.
-A read at the very end of the buffer fails with `io.EOF` even when zero bytes are asked for
-(`bytes.Reader.Read`), which sets the sticky error and yields `nil`. -/
+Zero bytes are returned without asking the reader (which would answer `io.EOF` at the very end). -/
 def Rd.raw (r : Rd) (n : Int) : Bytes × Rd :=
   if r.bad then ([], r)
   else if n < 0 ∨ (r.rest.length : Int) < n then ([], ⟨r.rest, true⟩)
-  else if r.rest.length = 0 then ([], ⟨r.rest, true⟩)
   else (r.rest.take n.toNat, ⟨r.rest.drop n.toNat, false⟩)
 
 /-- `PopLong` (`k = 8`) / `PopUint`, `PopInt` (`k = 4`): the little-endian value, or 0 after a failure
